@@ -1,4 +1,3 @@
-from textwrap import indent
 from typing import List
 
 from pydbml.constants import MANY_TO_ONE, ONE_TO_ONE, ONE_TO_MANY
@@ -7,6 +6,7 @@ from pydbml.exceptions import UnknownDatabaseError
 from pydbml.renderer.sql.default.note import prepare_text_for_sql
 from pydbml.renderer.sql.default.renderer import DefaultSQLRenderer
 from pydbml.renderer.sql.default.utils import comment_to_sql, get_full_name_for_sql
+from pydbml.tools import indent_lines as indent
 
 
 def get_references_for_sql(model: Table) -> List[Reference]:
